@@ -12,6 +12,7 @@ import Scico.Proofs.EstimConv
 import Scico.Proofs.EstimMat
 import Scico.Proofs.EstimZero
 import Scico.Proofs.EstimSource
+import Scico.Proofs.EstimComplex
 import Mathlib.Analysis.InnerProductSpace.Adjoint
 import Mathlib.Analysis.InnerProductSpace.Spectrum
 
@@ -816,6 +817,45 @@ theorem C17_default_parameters (fac ratio one : ℝ)
   refine ⟨a, by rw [b]; ring, (C17_padmm_est c c fac hc hc hf1).1, rfl⟩
 
 end source
+
+/-! ### round 5: `power_iteration` on complex operators (complex Rayleigh quotient) -/
+
+section complexpower
+
+variable {Ec : Type} [NormedAddCommGroup Ec] [InnerProductSpace ℂ Ec]
+
+/-- **Complex operators.**  On a complex inner-product space (`ℂⁿ`, `⟨v,w⟩ = Σ conj(vᵢ)wᵢ`) the value `mu` that `power_iteration`
+    returns for a bounded ℂ-linear operator `B` — any budget, any non-zero start, `B` not necessarily Hermitian or normal — is a
+    complex number with `|mu| ≤ ‖B‖`; it is real when `B` is Hermitian (so `operator_norm` loses nothing by taking `.real` of the
+    estimate for `AᴴA`); the zero operator gives exactly `(0, 0)`; `maxiter = 0` is rejected. -/
+theorem C17_power_complex (B : Ec →L[ℂ] Ec) (maxiter : Nat) (v0 : Ec) (hv0 : v0 ≠ 0) (mu : ℂ) (v : Ec)
+    (h : powerIterationC (opsOfC B) maxiter v0 = .ok (mu, v)) :
+    ‖mu‖ ≤ ‖B‖ ∧ ((∀ x y, inner ℂ (B x) y = inner ℂ x (B y)) → mu.im = 0) := by
+  obtain ⟨_, hp⟩ := powerIterationC_ok B maxiter v0 mu v h
+  constructor
+  · exact powerLoopC_pred B (fun m => ‖m‖ ≤ ‖B‖) (by simp) (fun w hw => norm_rqC_le B w hw) maxiter none _
+      (normalizeC_ne_zero v0 hv0) (by intro m' hm'; cases hm') mu hp
+  · intro hB
+    exact powerLoopC_pred B (fun m => m.im = 0) (by simp) (fun w _ => rqC_im_eq_zero B hB w) maxiter none _
+      (normalizeC_ne_zero v0 hv0) (by intro m' hm'; cases hm') mu hp
+
+theorem C17_power_complex_zero_budget (B : Ec →L[ℂ] Ec) (k : Nat) (v0 : Ec) (_hv0 : v0 ≠ 0) :
+    powerIterationC (opsOfC (0 : Ec →L[ℂ] Ec)) (k + 1) v0 = .ok (0, 0) ∧
+    powerIterationC (opsOfC B) 0 v0 = .error "value" := by
+  refine ⟨?_, rfl⟩
+  unfold powerIterationC
+  rw [if_neg (by omega)]
+  simp only
+  rw [powerLoopC_succ_zero (0 : Ec →L[ℂ] Ec) k none _ (by simp)]
+  simp
+
+-- non-vacuity: multiplication by `i` on ℂ is a bounded operator that is not Hermitian (⟨i·1, 1⟩ = −i ≠ i = ⟨1, i·1⟩)
+example : inner ℂ ((Complex.I • ContinuousLinearMap.id ℂ ℂ) (1 : ℂ)) (1 : ℂ) ≠
+    inner ℂ (1 : ℂ) ((Complex.I • ContinuousLinearMap.id ℂ ℂ) (1 : ℂ)) := by
+  simp [Complex.ext_iff]
+  norm_num
+
+end complexpower
 
 /-! ### non-vacuity -/
 
